@@ -67,8 +67,55 @@ Definition inv_refs (s : state) : Prop :=
 
 Definition inv_news (s : state) : Prop := length (st_news s) = max_vn.
 
+(* the [other] links of unknown / correlated parameters are acyclic: they strictly decrease some
+   rank.  (make_unknown / make_correlated link a NEW parameter to an EXISTING one, and the link
+   holds a reference, so the target cannot be freed and its slot re-used while the referrer lives.)
+   This is what makes the unbounded loops of the C code over vpmr_other terminate. *)
+Definition inv_acyclic (t : ptable) : Prop :=
+  exists rank : nat -> nat,
+    forall h p o, slot t h = Some p -> other_of (p_kind p) = Some o -> rank o < rank h.
+
 Definition Inv (s : state) : Prop :=
-  st_freed s = false -> inv_table (st_pt s) /\ inv_predefined (st_pt s) /\ inv_refs s /\ inv_news s.
+  st_freed s = false ->
+  inv_table (st_pt s) /\ inv_predefined (st_pt s) /\ inv_refs s /\ inv_news s /\ inv_acyclic (st_pt s).
+
+(* ------------------------------------------------------------------ specification of the walks over [other] *)
+(* the chain of [other] links from slot h ends at parameter e (a scalar or vector parameter) *)
+Inductive ends_at (t : ptable) : nat -> param -> Prop :=
+| ends_here : forall h p, slot t h = Some p -> other_of (p_kind p) = None -> ends_at t h p
+| ends_next : forall h p o e, slot t h = Some p -> other_of (p_kind p) = Some o -> ends_at t o e ->
+                              ends_at t h e.
+
+(* frequency range of a scalar / vector parameter; None = 0 .. infinity *)
+Definition range_of (e : param) : option (Z * Z) :=
+  match p_kind e with KVector fs _ => Some (hd 0%Z fs, last fs 0%Z) | _ => None end.
+
+(* ------------------------------------------------------------------ which handles a vnacal_new_t accepts *)
+(* specification of _vnacal_new_check_parameter / _vnacal_new_get_parameter: the parameter in slot n
+   covers the frequency range of the vnacal_new_t (no requirement before set_frequency_vector) *)
+Definition in_range (t : ptable) (v : vnew) (n : nat) : Prop :=
+  vn_fvalid v = false \/
+  exists e, ends_at t n e /\ range_ok (range_of e) (vn_f0 v) (vn_fmax v) = true.
+
+(* a handle is acceptable in a standard given to vnacal_new_t v: either v already holds it (then it
+   works even if the user has deleted it), or the user can still see it (non-negative, occupied, not
+   deleted), it covers the frequency range, and - for a correlated parameter - the parameter it is
+   correlated with is acceptable too *)
+Inductive acceptable (t : ptable) (v : vnew) : Z -> Prop :=
+| acc_held : forall h, (0 <= h)%Z -> In (Z.to_nat h) (vn_params v) -> acceptable t v h
+| acc_visible : forall h p, (0 <= h)%Z -> slot t (Z.to_nat h) = Some p -> p_deleted p = false ->
+    in_range t v (Z.to_nat h) ->
+    (forall o sv, p_kind p = KCorrelated o sv -> acceptable t v (Z.of_nat o)) ->
+    acceptable t v h.
+
+(* ------------------------------------------------------------------ operations that may write the calibration table *)
+(* add_calibration, delete_calibration, a property set on a calibration (ci <> -1), vnacal_free *)
+Definition touches_cals (o : op) : bool :=
+  match o with
+  | OAddCal _ _ | ODelCal _ | OFree => true
+  | OPropSet ci _ => negb (Z.eqb ci (-1))
+  | _ => false
+  end.
 
 (* executable form of the invariant (used by the driver on every state it reaches, and by the
    bounded statements) *)
@@ -104,6 +151,14 @@ Definition inv_news_b (s : state) : bool :=
   Nat.eqb (length (st_news s)) max_vn &&
   forallb (fun v => match v with Some x => nodup_b (vn_params x) | None => true end) (st_news s).
 
+(* every chain of [other] links from an occupied slot ends within (number of slots + 1) steps *)
+Definition inv_acyclic_b (t : ptable) : bool :=
+  forallb (fun h => match slot t h with
+                    | Some _ => match chain_end (S (length (pt_slots t))) t h with Some _ => true | None => false end
+                    | None => true
+                    end) (seq 0 (length (pt_slots t))).
+
 Definition inv_b (s : state) : bool :=
   if st_freed s then true
-  else inv_table_b (st_pt s) && inv_predefined_b (st_pt s) && inv_refs_b s && inv_news_b s.
+  else inv_table_b (st_pt s) && inv_predefined_b (st_pt s) && inv_refs_b s && inv_news_b s &&
+       inv_acyclic_b (st_pt s).
